@@ -4,6 +4,7 @@ mod core_mp;
 mod core_pp;
 mod crash;
 mod db;
+mod delta;
 mod flock;
 mod image;
 mod seglog;
@@ -57,6 +58,8 @@ fn main() {
         "bitops" => bitops::run(seed, cases, &mut sink),
         "bitops-node" => bitops::run_nodes(seed, cases, &mut sink),
         "seglog" => seglog::run(seed, cases, &mut sink),
+        "delta" => delta::run(seed, cases, &mut sink),
+        "delta-log" => delta::run_log(seed, cases, &mut sink),
         "core-pp" => core_pp::run(seed, cases, &mut sink),
         "core-mp" => core_mp::run(seed, cases, &mut sink),
         "core-mp-corpus" => {
